@@ -36,6 +36,7 @@ func (e *Engine) unitRelevant(con *Contract, prop string) bool {
 	all = append(all, con.Ensures...)
 	for _, ls := range con.Loops {
 		all = append(all, ls.Invariants...)
+		all = append(all, ls.Steps...)
 	}
 	for _, c := range all {
 		if hasTag(c.Tags, prop) {
